@@ -1,3 +1,5 @@
+mod c08;
+mod c11;
 mod c20;
 mod core;
 mod gen;
@@ -11,7 +13,7 @@ mod sut;
 use core::{Scenario, Tier};
 
 fn scenarios() -> Vec<&'static dyn Scenario> {
-    vec![&c20::C20Lib]
+    vec![&c20::C20Lib, &c11::C11Threads, &c08::C08Images]
 }
 
 fn meta(prop: &str) -> (&'static str, Vec<&'static str>, serde_json::Value) {
@@ -31,6 +33,25 @@ fn meta(prop: &str) -> (&'static str, Vec<&'static str>, serde_json::Value) {
                 "after a write-class hard fault the destination's content is unconstrained (fs::write truncates first; the property does not promise atomic replacement)",
             ],
             serde_json::json!({"components": components, "rule": "a case = (workload, fault plan): workload = generated module set x malformed variant x backend/config x delivery (literals/files) x builder path x output mode x destination state; every workload is run fault-free, then once per (call position of its recorded I/O trace x applicable fault kind), then with sampled double/triple faults. distinct = distinct (plan signature, I/O-trace signature) pairs; every run evaluates at least one oracle, so every run is non-trivial"}),
+        ),
+        "C08" => (
+            "exploration",
+            vec![
+                "SLICE: only storage-fault images of valid sources are explored (truncation at any byte, bit flips, sector zero-fill/duplicate/swap, splices of two files) — not arbitrary byte soup, not grammar-generated MACRO/CLASS/TIME/parameterization notation, not cyclic references: those need an input fuzzer, which is another technique family",
+                "a literal is always valid UTF-8 (images are converted lossily); invalid UTF-8 reaches the compiler only through file delivery",
+                "non-termination is detected by a CPU-time budget (RLIMIT_CPU, 60 s per batch of images against a typical 5-500 ms)",
+            ],
+            serde_json::json!({"components": components, "rule": "a case = (valid base source, storage-fault image, delivery, backend): bases are the 892 corpus files (walked systematically) and generated module sets; images are truncations (biased to the last bytes), single-bit flips, 512-byte sector zero-fill/duplication/swap and splices; delivered as a literal or as a file read through the simulated disk (truncation/flip/zero-fill applied by the seam to the bytes in flight); both backends; every error and warning rendered with Display and contextualize. distinct = distinct (base hash, image, delivery); non-trivial = the image differs from the base"}),
+        ),
+        "C11" => (
+            "exploration",
+            vec![
+                "the reference for every (input, backend/config) key is a canonical-order, single-threaded compile_to_string() in a pristine process of its own",
+                "interleaving granularity is hook points (verif::point) and intercepted libc calls; finer interleavings are equivalent for data-race-free code (the crate has no unsafe, atomics or locks of its own)",
+                "rustfmt is made unreachable (sanitised CARGO_HOME/CARGO) so that formatting is not an environmental variable",
+                "multi-file corpus sets are not combined (finding F1: bare-name collisions); corpus files take part one file per input",
+            ],
+            serde_json::json!({"components": components, "rule": "a case = one simulated run: 1..16 caller threads x histories of 1..8 compile_to_string() operations over generated module sets, their siblings (same names, other bodies/defaults) and corpus files, each operation in a random arrangement (assignment permutation per module, module order, regrouping of modules into sources), literal or file delivery with benign read faults, random RasnConfig, seeded hash keys, scheduler strategy random/PCT/run-to-completion. distinct = distinct (plan signature, schedule signature) pairs; non-trivial = at least one operation was compared byte-for-byte against an Ok reference"}),
         ),
         _ => ("exploration", vec![], serde_json::json!({"components": components, "rule": ""})),
     }
